@@ -286,6 +286,109 @@ class Flow:
             return False
         return self.cfg.edges_guard(edges, target_bb)
 
+    # ------------------------------------------------------------ correlated branches
+    def _cond_key(self, bb):
+        """For a block ending in `switchInt(c)` with `c = CMP(x, y)` computed in the block from plain locals,
+        constants or `len()` of a local: (op, keyx, keyy, locals mentioned); else None."""
+        b = self.body
+        t = b.blocks[bb]['term']
+        if t['k'] != 'switch' or t['on']['k'] == 'const' or t['on']['p']['proj']:
+            return None
+        c = t['on']['p']['l']
+        cmp_st = None
+        for st in b.blocks[bb]['stmts']:
+            if st['dst']['l'] == c and not st['dst']['proj'] and st['rv']['k'] == 'bin' and st['rv']['op'] in ('Lt', 'Le', 'Gt', 'Ge', 'Eq', 'Ne'):
+                cmp_st = st
+        if cmp_st is None:
+            return None
+
+        def opkey(op, depth=0):
+            if op['k'] == 'const':
+                return ('const', op.get('v')), set()
+            if op['p']['proj']:
+                return None, set()
+            l = op['p']['l']
+            if b.local_name(l):
+                return ('local', l), {l}
+            ds = self.defs.get(l, [])
+            if len(ds) != 1 or depth > 4:
+                return None, set()
+            dbb, idx, kind, data, dproj = ds[0]
+            if kind == 'assign' and data['k'] == 'use':
+                return opkey(data['ops'][0], depth + 1)
+            if kind == 'call' and (callee(data) or '').endswith('::len') and data['args'] and data['args'][0]['k'] != 'const':
+                # len(&V)
+                a = data['args'][0]
+                cur = a['p']['l']
+                for _ in range(4):
+                    d2 = self.defs.get(cur, [])
+                    if len(d2) == 1 and d2[0][2] == 'assign' and d2[0][3]['k'] == 'ref' and not d2[0][3]['p']['proj']:
+                        cur = d2[0][3]['p']['l']
+                        break
+                    break
+                if b.local_name(cur):
+                    return ('len', cur), {cur}
+            return None, set()
+        ka, la = opkey(cmp_st['rv']['ops'][0])
+        kb, lb = opkey(cmp_st['rv']['ops'][1])
+        if ka is None or kb is None:
+            return None
+        return (cmp_st['rv']['op'], ka, kb), la | lb
+
+    def reach_correlated(self, cut_edges=(), start=0):
+        """Blocks reachable from `start` without `cut_edges`, pruning paths that take contradictory outcomes of the
+        same comparison (same operator and operands, operands not written in between)."""
+        b = self.body
+        cfg = self.cfg
+        cut3 = {tuple(e) for e in cut_edges if len(e) == 3}
+        cut2 = {tuple(e) for e in cut_edges if len(e) == 2}
+        keys = {}
+        for bb in cfg.reachable():
+            k = self._cond_key(bb)
+            if k is not None:
+                keys[bb] = k
+        # locals written per block
+        writes = {}
+        for bb in range(len(b.blocks)):
+            w = set()
+            for st in b.blocks[bb]['stmts']:
+                w.add(st['dst']['l'])
+                if st['rv']['k'] == 'ref' and st['rv'].get('mut'):
+                    w.add(st['rv']['p']['l'])
+            t = b.blocks[bb]['term']
+            if t['k'] == 'call':
+                w.add(t['dst']['l'])
+            writes[bb] = w
+        seen = set()
+        out = set()
+        stack = [(start, frozenset())]
+        while stack:
+            bb, facts = stack.pop()
+            if (bb, facts) in seen:
+                continue
+            seen.add((bb, facts))
+            out.add(bb)
+            # kill facts whose locals are written here
+            live = frozenset(f for f in facts if not (f[2] & writes[bb]))
+            for t, lab in cfg.succ[bb]:
+                if (bb, t) in cut2 or (bb, t, lab) in cut3:
+                    continue
+                nf = live
+                if bb in keys and lab is not None:
+                    key, locs = keys[bb]
+                    truth = (lab != 0) if lab != 'otherwise' else (0 in [v for v, _ in b.blocks[bb]['term']['targets']])
+                    contra = any(f[0] == key and f[1] != truth for f in live)
+                    if contra:
+                        continue
+                    nf = live | {(key, truth, frozenset(locs))}
+                stack.append((t, nf))
+        return out
+
+    def edges_guard_correlated(self, edges, target):
+        if target not in self.cfg.reachable():
+            return False
+        return target not in self.reach_correlated(cut_edges=list(edges))
+
     # ------------------------------------------------------------ provenance
     def origins(self, op, path=(), depth=0, interproc=None, _seen=None, mut_calls=False):
         """Set of Origin for an operand / place dict / local index."""
